@@ -358,6 +358,11 @@ fn raw_body(r: &mut Rng) -> Vec<Piece> {
             }
         }
     }
+    // an `endraw` tag that carries arguments does not close the block: it is body text, also when it
+    // is the last thing before the real end tag
+    if r.chance(1, 6) {
+        push(&mut ps, Piece::Look(r.pick(&["{% endraw x %}", "{%- endraw 'z' -%}", "{% endraw 1 %}", "{%endraw a b%}"]).to_string()));
+    }
     // the end tag follows: a literal must not end in `{`
     if let Some(Piece::Lit(s)) = ps.last() {
         if s.ends_with('{') {
